@@ -240,6 +240,10 @@ def run_case(case):
     for p, n in dele.items():
         if p in posset:
             exp[(p, "-")] = n
+    # outside the RefSeq-mapped span every observation, deleted bases included, is a reference observation: only depth is comparable
+    blo, bhi = min(gene.chr_to_ref), max(gene.chr_to_ref)
+    got = {k: v for k, v in got.items() if blo <= k[0] <= bhi}
+    exp = {k: v for k, v in exp.items() if blo <= k[0] <= bhi}
     keys = set(got) | set(exp)
     for k in sorted(keys):
         p, op = k
@@ -345,4 +349,121 @@ def strategy(tier):
 
 
 def budget(tier):
-    return {"examples": 480 if tier == "quick" else 12000, "shards": 16}
+    return {"examples": 400 if tier == "quick" else 12000, "shards": 16}
+
+
+# ------------------------------------------------------------------ shipped BAMs (real aligner output)
+SHIPPED_BAMS = [("NA10860.bam", "hg19"), ("NA10860_hg38.bam", "hg38"), ("HG03166.pb.bam", "hg38")]
+
+
+def run_bam(case):
+    """The depth / allele-count / quality / ineligible-read / phase clauses on a shipped BAM (CYP2D6), indelpost on or off."""
+    import pysam
+    from aldy.gene import Gene
+    from aldy.sam import Sample
+    from aldy.profile import Profile
+    from aldy.common import script_path
+    from lib import gen_sol
+
+    gene = gen_sol.shipped("cyp2d6", case["build"])
+    path = script_path("aldy.tests.resources/" + case["file"])
+    wide = gene.get_wide_region()
+    inv = {v: k for k, v in refpile.CODES.items()}
+    reads = []
+    with pysam.AlignmentFile(path) as f:
+        prefix = "chr" if ("chr" + gene.chr) in f.references else ""
+        hdr = f.header.to_dict()
+        for r in f.fetch(until_eof=True):
+            if r.is_unmapped or r.reference_name != prefix + gene.chr:
+                continue
+            if r.reference_end is None or r.reference_end < wide.start - 600 or r.reference_start > wide.end + 600:
+                continue
+            q = list(r.query_qualities) if r.query_qualities is not None else None
+            reads.append({"name": r.query_name, "pos": r.reference_start, "cig": [(inv[o], n) for o, n in (r.cigartuples or [])],
+                          "seq": r.query_sequence or "", "qual": q if q is not None else [10] * len(r.query_sequence or ""),
+                          "mq": r.mapping_quality, "flag": r.flag, "_noqual": q is None})
+    multi = {m.pos: m.op for a in gene.alleles.values() for ms_ in [a.func_muts, *(x.neutral_muts for x in a.minors.values())]
+             for m in ms_ if ">" in m.op and len(m.op) > 3}
+    positions = [i for g in gene.regions for rg in g.values() for i in range(rg.start, rg.end)]
+    posset = set(positions)
+    elig = [r for r in reads if refpile.eligible(r)]
+    depth, obs, dele = refpile.pile(reads, gene, multi)
+    s = Sample(gene, Profile("x", cn_solution=["1", "1"], indelpost=case["indelpost"]), path)
+    cov = s.coverage
+    viol = []
+    labels = ["shipped-bam:" + case["file"], "indelpost" if case["indelpost"] else "noindelpost"]
+    bad = [(p, cov.total(p), depth.get(p, 0)) for p in positions if cov.total(p) != depth.get(p, 0)]
+    if bad:
+        viol.append(V("depth-mismatch", examples=bad[:5], n=len(bad), file=case["file"]))
+    blo, bhi = min(gene.chr_to_ref), max(gene.chr_to_ref)
+    got = {k: v for k, v in table_of(s, positions).items() if blo <= k[0] <= bhi}
+    obs = {k: v for k, v in obs.items() if blo <= k[0] <= bhi}
+    dele = {k: v for k, v in dele.items() if blo <= k <= bhi}
+    noqual = any(r["_noqual"] for r in elig)
+    for (p, op), lst in obs.items():
+        if p not in posset:
+            continue
+        g_ = got.get((p, op), [])
+        if len(g_) != len(lst):
+            viol.append(V("count-mismatch:" + ("mnp" if len(op) > 3 and ">" in op else "ref" if op == "_" else "sub"), pos=p, op=op, got=len(g_), want=len(lst), file=case["file"]))
+            break
+        if not noqual and not (len(op) > 3 and ">" in op):
+            e_bin = sorted((float(bin_quality(m)), float(bin_quality(q))) for m, q in lst)
+            e_raw = sorted((float(m), float(bin_quality(q))) for m, q in lst)
+            if g_ != e_bin and g_ != e_raw:
+                viol.append(V("quality-mismatch", pos=p, op=op, got=g_[:6], want_binned=e_bin[:6]))
+                break
+    for k in got:
+        if k[1] not in ("-",) and k not in obs and got[k]:
+            viol.append(V("count-mismatch:unexpected-entry", pos=k[0], op=k[1], got=len(got[k])))
+            break
+    for p, n in dele.items():
+        if p in posset and len(got.get((p, "-"), [])) != n:
+            viol.append(V("count-mismatch:deleted", pos=p, got=len(got.get((p, "-"), [])), want=n))
+            break
+    # phases
+    frag = collections.defaultdict(list)
+    for r in elig:
+        a, b = refpile.ref_span(r)
+        if a <= wide.end and wide.start <= b:
+            frag[r["name"]].append(r)
+    catpos = {p for p, _ in gene.mutations}
+    ins_only = {p for p, o in gene.mutations if o.startswith("ins")} - {p for p, o in gene.mutations if not o.startswith("ins")}
+    nfr = 0
+    for name, rs in frag.items():
+        ph = s.phases.get(name, {})
+        shown = collections.defaultdict(set)
+        covered = set()
+        for r in rs:
+            lab, al = refpile.phase_labels(r, gene, multi)
+            for p, ls in lab.items():
+                shown[p] |= ls
+            last = refpile.ref_span(r)[1] - 1
+            covered |= {p for p in al if not (p == last and p in ins_only and lab.get(p) == {"_"})}
+        nfr += 1
+        stop = False
+        for p in catpos:
+            if p in ph and ph[p] not in shown.get(p, set()):
+                viol.append(V("phase-label-not-shown-by-fragment", fragment=name, pos=p, label=ph[p], shown=sorted(shown.get(p, set()))))
+                stop = True
+                break
+            if p in covered and p not in ph:
+                viol.append(V("phase-label-missing", fragment=name, pos=p, shown=sorted(shown.get(p, set()))))
+                stop = True
+                break
+        if stop:
+            break
+    return Result(viol, labels, True, info={"reads": len(reads), "eligible": len(elig), "fragments": nfr})
+
+
+_orig_run_case = run_case
+
+
+def run_case(case):  # noqa
+    if case.get("kind") == "shipped_bam":
+        return run_bam(case)
+    return _orig_run_case(case)
+
+
+def enum_cases(tier):
+    return [{"kind": "shipped_bam", "file": f, "build": b, "indelpost": ip} for f, b in SHIPPED_BAMS for ip in (False, True)]
